@@ -11,4 +11,10 @@ BoxesT == BoxesQ \cup {<< <<R(1),R(1)>>, <<R(9),R(3)>> >>, << <<Q(1,2),Q(3,2)>>,
 W(name, sh, S) == [name |-> name, shape |-> sh, S |-> S]
 WarpsQ == {W("shear", <<4, 5>>, M3(R(1),Q(1,4),Q(1,2), R(0),R(1),Q(1,2))), W("fractrans", <<3, 4>>, Tr2(Q(3,4), Q(5,4)))}
 Order0Q == {W("fractrans_o0", <<3, 4>>, Tr2(Q(3,4), Q(5,4))), W("inttrans_o0", <<3, 3>>, Tr2(R(1), R(2))), W("scale_o0", <<3, 3>>, Sc2(Q(3,2), Q(5,4)))}
+BaseOps == {"rescale", "resize", "rotate", "mirror", "zoom", "crop", "warp", "warp_order0"}
+ExtOps == {"crop_lms", "crop_true_mask", "rescale_derived", "pyramid", "about", "warp_mask", "warp_sym"}
+\* extended families after one framing operation (so that they start from a non-trivial registration state)
+MixOps == ExtOps \cup {"rescale", "crop", "mirror"}
+QuickMixOps == ExtOps \cup {"crop"}
+Sh68 == <<6, 8>>
 =============================================================================
